@@ -17,7 +17,7 @@ ASSUME = ["roots are the longest common literal prefix of a configuration's temp
           "R8 renderer applies the configured one-to-one value mappings and defaults"]
 BUDGET = {"quick": 16000, "thorough": 240000}
 NSHARDS = 16
-NAMES = ["ophelia", "x_rig", "x_rig_WORK", "a_b", "model", "char_x", "v001", "WORK", "b", "a-b", "a.b", "sq010_sh0010", "w", "p_v001", "x_"]
+NAMES = ["ophelia", "d'agger", "x_rig", "x_rig_WORK", "a_b", "model", "char_x", "v001", "WORK", "b", "a-b", "a.b", "sq010_sh0010", "w", "p_v001", "x_"]
 
 
 def shard_args(tier, seed):
@@ -59,8 +59,51 @@ def run(snap, tier, seed, t0, replay):
               "cross-process comparisons": (cross, 4000 if tier == "quick" else 40000),
               "names containing separator": (c.get("sep_in_name", 0), BUDGET[tier] // 20),
               "pathless / untyped": (c.get("none_expected", 0), BUDGET[tier] // 50),
-              "configs": (len([k for k in c if k.startswith("config:")]), 2)}
+              "configs": (len([k for k in c if k.startswith("config:")]), 2),
+              "same-string other-type Sids": (c.get("same_string_other_type", 0), 50),
+              "transient faults injected": (c.get("transient_faults_injected", 0), 50)}
     return harness.finish("C05", tier, seed, LEVEL, m, RULE, t0, ASSUME, floors=floors)
+
+
+def transient_fault(rec, Sid, s, configs, pms):
+    """Injected fault: the FIRST path computation of a fresh Sid fails with a non-spil error; once the fault is gone the
+    path must be the normal one (path(c) is a pure function of (type, fields, c) - a failure must not be remembered)."""
+    from spil.sid.pathops import fs_resolver
+    segs = s.split("/")
+    x = Sid(s)
+    if not x or x.is_search():
+        return
+    real = fs_resolver.dict_to_path
+    c = configs[len(s) % len(configs)]
+    state = {"n": 0}
+
+    def failing(*a, **kw):
+        state["n"] += 1
+        raise OSError(5, "injected I/O error while resolving the path")
+    # use a Sid object whose path was never computed: same fields through another spelling (uri)
+    y = Sid(x.uri + "?" + "&".join("%s=%s" % kv for kv in list(x.fields.items())[-1:]))
+    if not y or y != x:
+        return
+    fs_resolver.dict_to_path = failing
+    try:
+        try:
+            y.path("%s" % c)
+        except Exception:
+            pass
+    finally:
+        fs_resolver.dict_to_path = real
+    if not state["n"]:
+        return          # the path was already cached: the fault was not reached
+    rec.count("transient_faults_injected")
+    exp = pms[c].render(x.type, x.fields)
+    try:
+        got = y.path("%s" % c)
+    except Exception as e:
+        rec.violation("path_raised_after_fault_cleared", {"s": s, "config": c, "fault": "OSError in dict_to_path on first call"}, repr(e))
+        return
+    if (got.as_posix() if got is not None else None) != exp and x.type in pms[c].templates:
+        rec.violation("failure_remembered_after_transient_fault", {"s": s, "config": c, "fault": "OSError in dict_to_path on first call"},
+                      "path after the fault cleared: %r expected %r" % (got, exp))
 
 
 def worker(args):
@@ -118,6 +161,12 @@ def worker(args):
                         rec.violation("path_for_pathless", cc, repr(p))
                 continue
             rec.count("config:" + c)
+            if pm.render(x.type, x.fields) is None:
+                # a value outside this configuration's vocabulary: no path here (None, not a bogus path)
+                rec.count("value_outside_config_vocabulary")
+                if p is not None:
+                    rec.violation("path_for_values_outside_config_vocabulary", cc, repr(p))
+                continue
             if p is None:
                 rec.violation("no_path_for_type_with_template", cc, "")
                 continue
@@ -162,7 +211,9 @@ def worker(args):
     if "replay" in args:
         c = args["replay"]
         rec.ev()
-        if "s" in c:
+        if c.get("fault"):
+            transient_fault(rec, Sid, c["s"], configs, pms)
+        elif "s" in c:
             one(c["s"])
             if c.get("other"):
                 one(c["other"])
@@ -182,6 +233,22 @@ def worker(args):
             if any("_" in v for v, info in zip(segs, vocab.info[t.name]) if info["open"]):
                 rec.count("sep_in_name")
             x = one(s)
+            if it % 9 == 0:
+                # Sids that SHARE this string but have another (forced) type: each has its own path (or None)
+                others = [t2 for t2 in model.all_types(s) if t2.name != (x.type if x else None)]
+                if others:
+                    rec.count("same_string_other_type")
+                    order = [t2.name + ":" + s for t2 in others]
+                    if rng.random() < 0.5:
+                        for u in order:
+                            one(u)
+                        one(s)
+                    else:
+                        one(s)
+                        for u in order:
+                            one(u)
+            if it % 11 == 0 and x:
+                transient_fault(rec, Sid, s, configs, pms)
         elif r < 0.95 and without:
             t = rng.choice(without)
             s = vocab.valid_string(t, rng, pool=NAMES)
